@@ -1,13 +1,735 @@
 /-
   C18 — strings are sequences of code points in every string function.
+
+  Property theorems about the model `RsjModel/Str.lean` (a Rust `str` = the list of
+  its Unicode scalar values, byte offsets = sums of `utf8Len`).  Helper lemmas live
+  in `RsjProofs/StrSlice.lean`, `StrFind.lean`, `StrSplit.lean`.
+
+  Numeric arguments are finite f64 values abstracted to `Num` (sign, ⌊|x|⌋, has a
+  fraction); `Num.ofNat n` / `Num.ofInt i` are the integers, every `Num` with
+  `frac = true` is a fractional value.  The only standing hypothesis is that a
+  string has at most `usize::MAX` characters (Rust strings are < 2^63 bytes).
 -/
 import RsjProofs.StrSlice
+import RsjProofs.StrFind
+import RsjProofs.StrSplit
 namespace Rsj.Str
 
-/-- **C18 length_is_codepoints.** -/
+theorem U32_MAX_eq : U32_MAX = 2 ^ 32 - 1 := rfl
+
+/-! ## length / indexing -/
+
+/-- **C18 length_is_codepoints.** `std.length` of a string is the number of scalar
+    values, whatever their UTF-8 width. -/
 theorem C18_length_is_codepoints (s : Str) : length s = List.length s := rfl
+
+/-- `std.length` is not the byte length as soon as one character is not ASCII. -/
+example : length [0x61, 0xE9, 0x1F600] = 3 ∧ byteLen [0x61, 0xE9, 0x1F600] = 7 := by decide
+
+/-- **C18 index_is_nth_codepoint.** For an integer index that fits `usize`, `s[i]` is the
+    one-character string holding the `i`-th scalar value; beyond the end the error reports
+    the index and the length *in characters*. -/
+theorem C18_index_is_nth_codepoint (s : Str) (i : Nat) (hi : i ≤ USIZE_MAX) :
+    index s (Num.ofNat i) =
+      match s[i]? with
+      | some c => .ok [c]
+      | none => .error (.indexOutOfRange i s.length) := by
+  unfold index Num.tryToUsizeExact Num.ofNat
+  simp only [Bool.false_eq_true, if_false, Bool.false_and, if_pos hi]
+  cases s[i]? <;> rfl
+
+/-- Negative and fractional indices are rejected (never wrapped / truncated). -/
+theorem C18_index_invalid (s : Str) (x : Num)
+    (h : x.frac = true ∨ (x.neg = true ∧ 0 < x.int)) : index s x = .error .indexNotValid := by
+  unfold index Num.tryToUsizeExact
+  rcases h with h | ⟨h1, h2⟩
+  · simp [h]
+  · by_cases hf : x.frac = true
+    · simp [hf]
+    · simp [hf, h1, h2]
+
+/-- An integer index beyond `usize::MAX` never yields a character. -/
+theorem C18_index_huge (s : Str) (hs : s.length ≤ USIZE_MAX) (i : Nat) (hi : USIZE_MAX < i) :
+    ∃ e, index s (Num.ofNat i) = .error e := by
+  have h1 : ¬ i ≤ USIZE_MAX := by omega
+  by_cases h2 : i = USIZE_MAX + 1
+  · refine ⟨.indexOutOfRange USIZE_MAX s.length, ?_⟩
+    have h3 : ¬ (USIZE_MAX + 1 ≤ USIZE_MAX) := by omega
+    simp [index, Num.tryToUsizeExact, Num.ofNat, h2, h3, List.getElem?_eq_none hs]
+  · exact ⟨.indexNotValid, by simp [index, Num.tryToUsizeExact, Num.ofNat, h1, h2]⟩
+
+example : index [0x61, 0xE9, 0x1F600] (Num.ofNat 2) = .ok [0x1F600] := rfl
+example : index [0x61, 0xE9, 0x1F600] (Num.ofNat 3) = .error (.indexOutOfRange 3 3) := rfl
+
+/-! ## slicing -/
+
+/-- **C18 slice_spec.** For every combination of absent / integer start, end and step
+    (negative, beyond the end, `end < start`, beyond `usize` included; step ≥ 1), the slice
+    succeeds and its `j`-th character is the character of `s` at position `lo + j*step`
+    as long as that position is `< hi`, where negative bounds count from the end
+    (saturating at 0), an absent start is 0, an absent end is the length.  This determines
+    the result list completely (`List.ext_getElem?`). -/
+theorem C18_slice_spec (s : Str) (hs : s.length ≤ USIZE_MAX) (a b k : Option Int)
+    (hk : ∀ x, k = some x → 1 ≤ x) :
+    ∃ r, sliceString s (a.map Num.ofInt) (b.map Num.ofInt) (k.map Num.ofInt) = .ok r ∧
+      ∀ j, r[j]? =
+        if (a.map (normIdx s.length)).getD 0 + j * (k.map Int.toNat).getD 1 <
+            (b.map (normIdx s.length)).getD s.length
+        then s[(a.map (normIdx s.length)).getD 0 + j * (k.map Int.toNat).getD 1]?
+        else none := by
+  have hr := getSliceRange_ofInt s.length a b k hk
+  have hA : (a.map (clampIdx s.length)).getD 0 ≤ USIZE_MAX := by
+    cases a with
+    | none => simp
+    | some i =>
+      simp only [Option.map_some, Option.getD_some, clampIdx]
+      split <;> omega
+  have hab : (a.map (clampIdx s.length)).getD 0 ≤
+      (b.map (fun i => max (clampIdx s.length i) ((a.map (clampIdx s.length)).getD 0))).getD
+        USIZE_MAX := by
+    cases b with
+    | none => simpa using hA
+    | some i => simp only [Option.map_some, Option.getD_some]; omega
+  have hk1 : 1 ≤ (k.map (fun i => min i.toNat USIZE_MAX)).getD 1 := by
+    cases k with
+    | none => simp
+    | some i =>
+      have := hk i rfl
+      simp only [Option.map_some, Option.getD_some]
+      rw [USIZE_MAX_eq]; omega
+  obtain ⟨r, hr1, hr2⟩ := sliceString_of_range hr hab hk1
+  refine ⟨r, hr1, ?_⟩
+  intro j
+  rw [hr2 j]
+  exact slice_obs s hs a b k j
+
+theorem sliceString_error {s : Str} {st en sp : Option Num} {e : Err}
+    (h : getSliceRange s.length st en sp = .error e) : sliceString s st en sp = .error e := by
+  unfold sliceString; rw [h]
+
+/-- Fractional slice components and steps below 1 are errors (start, end, step checked in
+    this order). -/
+theorem C18_slice_errors (s : Str) (x : Num) (st en sp : Option Num) :
+    (x.frac = true → sliceString s (some x) en sp = .error .sliceStart) ∧
+    (x.frac = true → (∀ y, st = some y → y.frac = false) →
+      sliceString s st (some x) sp = .error .sliceEnd) ∧
+    ((x.frac = true ∨ x.neg = true ∨ x.int = 0) → (∀ y, st = some y → y.frac = false) →
+      (∀ y, en = some y → y.frac = false) → sliceString s st en (some x) = .error .sliceStep) := by
+  refine ⟨?_, ?_, ?_⟩
+  · intro h
+    apply sliceString_error
+    simp [getSliceRange, Num.notInt, h]
+  · intro h hst
+    apply sliceString_error
+    cases st with
+    | none => simp [getSliceRange, Num.notInt, h]
+    | some y =>
+      have := hst y rfl
+      cases hlz : y.ltZero <;> simp [getSliceRange, Num.notInt, this, h, hlz]
+  · intro h hst hen
+    apply sliceString_error
+    have hstep : x.frac = true ∨ x.ltOne = true := by
+      unfold Num.ltOne
+      rcases h with h | h | h <;> simp [h]
+    cases st with
+    | none =>
+      cases en with
+      | none => simp [getSliceRange, Num.notInt, hstep]
+      | some z =>
+        have := hen z rfl
+        simp [getSliceRange, Num.notInt, this, hstep]
+    | some y =>
+      have hy := hst y rfl
+      cases hlz : y.ltZero <;> cases en with
+      | none => simp [getSliceRange, Num.notInt, hy, hlz, hstep]
+      | some z =>
+        have := hen z rfl
+        simp [getSliceRange, Num.notInt, hy, hlz, this, hstep]
+
+example : sliceString [0x1F600, 0x61, 0xE9, 0x65E5, 0x62] (some (Num.ofInt (-3))) none
+    (some (Num.ofInt 2)) = .ok [0xE9, 0x62] := rfl
+example : sliceString [0x1F600, 0x61, 0xE9] (some (Num.ofInt 2)) (some (Num.ofInt 1)) none
+    = .ok [] := rfl
+/-! ## substr -/
+
+/-- **C18 substr_spec.** `std.substr(s, from, len)` with natural-number arguments (however
+    large) is `len` characters starting at character `from`. -/
+theorem C18_substr_spec (s : Str) (hs : s.length ≤ USIZE_MAX) (f l : Nat) :
+    substr s (Num.ofNat f) (Num.ofNat l) = .ok ((s.drop f).take l) := by
+  unfold substr Num.ofNat Num.notInt Num.ltZero Num.asUsize
+  simp only [Bool.false_and, Bool.or_self, Bool.false_eq_true, if_false]
+  congr 1
+  have h1 : s.drop (min f USIZE_MAX) = s.drop f := by
+    by_cases hf : f ≤ USIZE_MAX
+    · rw [Nat.min_eq_left hf]
+    · rw [Nat.min_eq_right (by omega), List.drop_eq_nil_of_le hs,
+        List.drop_eq_nil_of_le (by omega)]
+  rw [h1]
+  by_cases hl : l ≤ USIZE_MAX
+  · rw [Nat.min_eq_left hl]
+  · have hlen : (s.drop f).length ≤ USIZE_MAX := by rw [List.length_drop]; omega
+    rw [Nat.min_eq_right (by omega), List.take_of_length_le hlen,
+      List.take_of_length_le (by omega)]
+
+/-- Negative / fractional `from` or `len` are the documented errors. -/
+theorem C18_substr_errors (s : Str) (x y : Num)
+    (hx : x.frac = true ∨ (x.neg = true ∧ 0 < x.int)) :
+    substr s x y = .error .substrFrom ∧
+    substr s (Num.ofNat 0) x = .error .substrLen := by
+  have hbad : (x.notInt || x.ltZero) = true := by
+    unfold Num.notInt Num.ltZero
+    rcases hx with h | ⟨h1, h2⟩
+    · simp [h]
+    · simp [h1, h2]
+  constructor
+  · unfold substr; rw [if_pos hbad]
+  · unfold substr
+    rw [if_neg (by decide), if_pos hbad]
+
+example : substr [0xE9, 0xE9, 0x61, 0x62] (Num.ofNat 1) (Num.ofNat (10 ^ 18)) =
+    .ok [0xE9, 0x61, 0x62] := rfl
+
+/-- `-0` (the f64 produced by the Jsonnet expression `-0`) behaves as `0` everywhere. -/
+theorem C18_negative_zero (s : Str) (y : Num) (o1 o2 : Option Num) :
+    index s ⟨true, 0, false⟩ = index s (Num.ofNat 0) ∧
+    substr s ⟨true, 0, false⟩ y = substr s (Num.ofNat 0) y ∧
+    substr s (Num.ofNat 0) ⟨true, 0, false⟩ = substr s (Num.ofNat 0) (Num.ofNat 0) ∧
+    sliceString s (some ⟨true, 0, false⟩) o1 o2 = sliceString s (some (Num.ofNat 0)) o1 o2 :=
+  ⟨rfl, rfl, rfl, rfl⟩
+
+/-! ## findSubstr -/
+
+/-- **C18 findSubstr_spec.** The literal loop of `do_std_find_substr` (byte offset from
+    `str::find`, `split_at`, byte slice past the pattern's first character, running
+    character index) never panics and returns exactly the character positions at which
+    the pattern occurs — every one (overlapping occurrences included) and only those —
+    in strictly increasing order; the empty pattern has no match. -/
+theorem C18_findSubstr_spec (p s : Str) :
+    ∃ l, findSubstr p s = .ok l ∧
+      (∀ i, i ∈ l ↔ p ≠ [] ∧ p <+: s.drop i) ∧
+      l.Pairwise (· < ·) := by
+  cases hp : p with
+  | nil => exact ⟨[], rfl, by simp, List.Pairwise.nil⟩
+  | cons c p' =>
+    have hne : c :: p' ≠ [] := by simp
+    refine ⟨matchesFrom (c :: p') s 0, findSubstr_eq _ s hne, ?_, matchesFrom_pairwise _ s 0⟩
+    intro i
+    rw [mem_matchesFrom]
+    constructor
+    · rintro ⟨j, rfl, _, hj⟩
+      exact ⟨hne, by simpa using List.isPrefixOf_iff_prefix.mp hj⟩
+    · rintro ⟨_, hpre⟩
+      refine ⟨i, by omega, ?_, List.isPrefixOf_iff_prefix.mpr hpre⟩
+      by_cases hi : i < s.length
+      · exact hi
+      · rw [List.drop_eq_nil_of_le (by omega)] at hpre
+        simp at hpre
+
+/-- Overlapping occurrences behind a 2-byte and before a 4-byte character. -/
+example : findSubstr [0x61, 0x61] [0xE9, 0x61, 0x61, 0x61, 0x1F600, 0x61, 0x61] =
+    .ok [1, 2, 5] := rfl
+
+/-! ## split / join -/
+
+/-- `std.join` (string separator, array of strings) is `List.intercalate`. -/
+theorem C18_join_spec (sep : Str) (xs : List Str) :
+    join sep xs = (xs.intersperse sep).flatten := join_eq_intersperse sep xs
+
+/-- **C18 join_split.** `std.join(c, std.split(s, c)) == s` for every non-empty `c`;
+    an empty `c` is the documented error. -/
+theorem C18_join_split (s sep : Str) :
+    (sep ≠ [] → ∃ l, stdSplit s sep = .ok l ∧ join sep l = s) ∧
+    (sep = [] → stdSplit s sep = .error .emptyDelim) := by
+  constructor
+  · intro h
+    refine ⟨split sep s, ?_, join_split sep s⟩
+    unfold stdSplit
+    cases sep with
+    | nil => exact absurd rfl h
+    | cons => rfl
+  · rintro rfl; rfl
+
+/-- `std.split` cuts at the leftmost occurrence of the separator and continues behind it
+    (non-overlapping leftmost scanning); `splitOnce_some` / `splitOnce_none` pin the cut:
+    `s = a ++ sep ++ b` with no occurrence of `sep` starting before `a.length`. -/
+theorem C18_split_leftmost (s sep : Str) (hsep : sep ≠ []) :
+    (split sep s = match splitOnce sep s with
+      | none => [s]
+      | some (a, b) => a :: split sep b) ∧
+    (∀ a b, splitOnce sep s = some (a, b) →
+      s = a ++ sep ++ b ∧ ∀ j, j < a.length → ¬ sep <+: s.drop j) ∧
+    (splitOnce sep s = none → ∀ j, ¬ sep <+: s.drop j) := by
+  refine ⟨split_unfold sep hsep s, ?_, ?_⟩
+  · intro a b h
+    obtain ⟨h1, h2⟩ := splitOnce_some sep s a b h
+    refine ⟨h1, fun j hj hp => ?_⟩
+    have := h2 j hj
+    rw [List.isPrefixOf_iff_prefix.mpr hp] at this
+    cases this
+  · intro h j hp
+    by_cases hj : j ≤ s.length
+    · have := splitOnce_none sep s h j hj
+      rw [List.isPrefixOf_iff_prefix.mpr hp] at this
+      cases this
+    · rw [List.drop_eq_nil_of_le (by omega)] at hp
+      exact hsep (List.prefix_nil.mp hp)
+
+/-- Number of separators found by non-overlapping leftmost scanning. -/
+def occurrences (sep s : Str) : Nat := (split sep s).length - 1
+
+theorem tryToUsize_ofNat (n : Nat) :
+    (Num.ofNat n).tryToUsize =
+      if n ≤ USIZE_MAX then some n else if n = USIZE_MAX + 1 then some USIZE_MAX else none := by
+  by_cases h : n ≤ USIZE_MAX
+  · simp [Num.tryToUsize, Num.tryToUsizeExact, Num.trunc, Num.ofNat, h]
+  · by_cases h2 : n = USIZE_MAX + 1
+    · have h3 : ¬ (USIZE_MAX + 1 ≤ USIZE_MAX) := by omega
+      simp [Num.tryToUsize, Num.tryToUsizeExact, Num.trunc, Num.ofNat, h2, h3]
+    · simp [Num.tryToUsize, Num.tryToUsizeExact, Num.trunc, Num.ofNat, h, h2]
+
+theorem decodeMaxsplits_ofNat (n : Nat) :
+    decodeMaxsplits (Num.ofNat n) = .ok (if n < USIZE_MAX then some (n + 1) else none) := by
+  unfold decodeMaxsplits
+  rw [tryToUsize_ofNat]
+  have h0 : (Num.ofNat n).notInt = false := rfl
+  have h1 : (Num.ofNat n).ltZero = false := rfl
+  simp only [h0, h1, Bool.false_eq_true, if_false]
+  by_cases hn : n < USIZE_MAX
+  · rw [if_pos (by omega), if_pos hn]
+    simp only
+    rw [if_pos (by omega)]
+  · rw [if_neg hn]
+    by_cases h2 : n ≤ USIZE_MAX
+    · rw [if_pos h2]
+      simp only
+      rw [if_neg (by omega)]
+    · rw [if_neg h2]
+      by_cases h3 : n = USIZE_MAX + 1
+      · rw [if_pos h3]
+        simp only
+        rw [if_neg (by omega)]
+      · rw [if_neg h3]
+
+/-- **C18 splitLimit_spec.** `std.splitLimit(s, c, n)` (any natural `n`, however large)
+    splits at the first `n` separators: its first `n` pieces are those of the full split
+    and the last one is the unsplit rest; with fewer than `n` separators it is the full
+    split.  Consequently the pieces joined by `c` give `s` back and there are
+    `min(n, occurrences) + 1` of them. -/
+theorem C18_splitLimit_spec (s sep : Str) (hsep : sep ≠ []) (hs : s.length < USIZE_MAX) (n : Nat) :
+    ∃ l, splitLimit s sep (Num.ofNat n) = .ok l ∧
+      l = (if n < (split sep s).length then
+             (split sep s).take n ++ [join sep ((split sep s).drop n)]
+           else split sep s) ∧
+      join sep l = s ∧
+      l.length = min n (occurrences sep s) + 1 := by
+  have hlen := splitN_length_le sep hsep (s.length + 2) s
+  have hpos : 0 < (split sep s).length := List.length_pos_iff.mpr (split_ne_nil sep s)
+  have hfl : (split sep s).length ≤ s.length + 1 := hlen
+  have hsem : sep.isEmpty = false := by cases sep with
+    | nil => exact absurd rfl hsep
+    | cons => rfl
+  by_cases hn : n < USIZE_MAX
+  · refine ⟨splitN sep (n + 1) s, ?_, splitN_split sep hsep n s, join_splitN sep n s, ?_⟩
+    · unfold splitLimit
+      rw [hsem, decodeMaxsplits_ofNat, if_pos hn]; rfl
+    · rw [splitN_split sep hsep n s]
+      unfold occurrences
+      split
+      · simp [List.length_take]; omega
+      · omega
+  · refine ⟨split sep s, ?_, ?_, join_split sep s, ?_⟩
+    · unfold splitLimit
+      rw [hsem, decodeMaxsplits_ofNat, if_neg hn]; rfl
+    · rw [if_neg (by omega)]
+    · unfold occurrences; omega
+
+/-- `maxsplits = -1` is the unlimited split; other negative values and fractions are errors. -/
+theorem C18_splitLimit_args (s sep : Str) (hsep : sep ≠ []) (x : Num) :
+    splitLimit s sep (Num.ofInt (-1)) = .ok (split sep s) ∧
+    (x.frac = true → splitLimit s sep x = .error .maxsplitsNotInt) ∧
+    (x.frac = false → x.neg = true → 2 ≤ x.int → splitLimit s sep x = .error .maxsplitsNeg) := by
+  have hsem : sep.isEmpty = false := by cases sep with
+    | nil => exact absurd rfl hsep
+    | cons => rfl
+  refine ⟨?_, ?_, ?_⟩
+  · unfold splitLimit; rw [hsem]; rfl
+  · intro h
+    unfold splitLimit decodeMaxsplits Num.notInt
+    rw [hsem, h]; rfl
+  · intro h1 h2 h3
+    unfold splitLimit decodeMaxsplits Num.notInt Num.ltZero
+    rw [hsem, h1, h2]
+    have : decide (0 < x.int) = true := by simp; omega
+    simp only [this, Bool.or_false, Bool.and_self, if_true, Bool.false_eq_true, if_false]
+    rw [if_neg (by omega)]
+
+/-- The pieces found by right-to-left non-overlapping scanning, in string order. -/
+def rsplitAll (sep s : Str) : List Str := (rsplitN sep (s.length + 2) s).reverse
+
+/-- Right-to-left scanning cuts at the rightmost occurrence and continues before it. -/
+theorem C18_rsplit_rightmost (s sep : Str) (hsep : sep ≠ []) :
+    (rsplitAll sep s = match rsplitOnce sep s with
+      | none => [s]
+      | some (a, b) => rsplitAll sep a ++ [b]) ∧
+    (∀ a b, rsplitOnce sep s = some (a, b) →
+      s = a ++ sep ++ b ∧ ∀ j, a.length < j → ¬ sep <+: s.drop j) := by
+  constructor
+  · unfold rsplitAll
+    rw [rsplitN_unfold sep hsep s]
+    cases rsplitOnce sep s with
+    | none => rfl
+    | some p => simp
+  · intro a b h
+    obtain ⟨h1, h2⟩ := rsplitOnce_some sep s a b h
+    refine ⟨h1, fun j hj hp => ?_⟩
+    by_cases hj' : j ≤ s.length
+    · have := h2 j hj hj'
+      rw [List.isPrefixOf_iff_prefix.mpr hp] at this
+      cases this
+    · rw [List.drop_eq_nil_of_le (by omega)] at hp
+      exact hsep (List.prefix_nil.mp hp)
+theorem decodeMaxsplitsR_ofNat (n : Nat) :
+    decodeMaxsplitsR (Num.ofNat n) = .ok (some (if n < USIZE_MAX then n + 1 else USIZE_MAX)) := by
+  unfold decodeMaxsplitsR
+  rw [tryToUsize_ofNat]
+  have h0 : (Num.ofNat n).notInt = false := rfl
+  have h1 : (Num.ofNat n).ltZero = false := rfl
+  simp only [h0, h1, Bool.false_eq_true, if_false]
+  by_cases hn : n < USIZE_MAX
+  · rw [if_pos (by omega), if_pos hn]
+    simp only
+    rw [if_pos (by omega)]
+  · rw [if_neg hn]
+    by_cases h2 : n ≤ USIZE_MAX
+    · rw [if_pos h2]
+      simp only
+      rw [if_neg (by omega)]
+    · rw [if_neg h2]
+      by_cases h3 : n = USIZE_MAX + 1
+      · rw [if_pos h3]
+        simp only
+        rw [if_neg (by omega)]
+      · rw [if_neg h3]
+
+/-- **C18 splitLimitR_spec.** `std.splitLimitR(s, c, n)` (any natural `n`, however large)
+    splits at the last `n` separators: its last `n` pieces are those of the right-to-left
+    split and the first one is the unsplit front; with fewer than `n` separators it is the
+    whole right-to-left split.  The pieces joined by `c` give `s` back and there are
+    `min(n, occurrences from the right) + 1` of them. -/
+theorem C18_splitLimitR_spec (s sep : Str) (hsep : sep ≠ []) (hs : s.length + 2 ≤ USIZE_MAX)
+    (n : Nat) :
+    ∃ l, splitLimitR s sep (Num.ofNat n) = .ok l ∧
+      l = (if n < (rsplitAll sep s).length then
+             join sep ((rsplitAll sep s).take ((rsplitAll sep s).length - n)) ::
+               (rsplitAll sep s).drop ((rsplitAll sep s).length - n)
+           else rsplitAll sep s) ∧
+      join sep l = s ∧
+      l.length = min n ((rsplitAll sep s).length - 1) + 1 := by
+  have hsem : sep.isEmpty = false := by cases sep with
+    | nil => exact absurd rfl hsep
+    | cons => rfl
+  -- the limit actually used, `m + 1`
+  obtain ⟨m, hm, hdec⟩ : ∃ m, (m = n ∨ (s.length + 1 ≤ m ∧ s.length + 1 ≤ n)) ∧
+      decodeMaxsplitsR (Num.ofNat n) = .ok (some (m + 1)) := by
+    rw [decodeMaxsplitsR_ofNat]
+    by_cases hn : n < USIZE_MAX
+    · exact ⟨n, Or.inl rfl, by rw [if_pos hn]⟩
+    · refine ⟨USIZE_MAX - 1, Or.inr ⟨by omega, by omega⟩, ?_⟩
+      rw [if_neg hn]
+      have : USIZE_MAX - 1 + 1 = USIZE_MAX := by omega
+      rw [this]
+  have hrun : splitLimitR s sep (Num.ofNat n) = .ok (rsplitN sep (m + 1) s).reverse := by
+    unfold splitLimitR
+    rw [hsem, hdec]; rfl
+  have hRlen := rsplitN_length_le sep hsep (s.length + 2) s
+  have hRpos : 0 < (rsplitN sep (s.length + 2) s).length :=
+    List.length_pos_iff.mpr (rsplitN_ne_nil sep (s.length + 1) s)
+  -- the limit `m + 1` behaves like `n + 1`
+  have hmn : rsplitN sep (m + 1) s = rsplitN sep (n + 1) s := by
+    rcases hm with rfl | ⟨h1, h2⟩
+    · rfl
+    · rw [← rsplitN_stable sep hsep s (m + 1) (by omega),
+        ← rsplitN_stable sep hsep s (n + 1) (by omega)]
+  have hfull := rsplitN_stable sep hsep s (n + 1 + (s.length + 2)) (by omega)
+  refine ⟨(rsplitN sep (n + 1) s).reverse, by rw [hrun, hmn], ?_, join_rsplitN sep n s, ?_⟩
+  · unfold rsplitAll
+    simp only [List.length_reverse]
+    split
+    · next h =>
+      have hlt := h
+      rw [hfull] at h
+      rw [rsplitN_take_drop sep n (s.length + 2) s h, ← hfull]
+      simp [List.take_reverse, List.drop_reverse]
+      have e : (rsplitN sep (s.length + 2) s).length -
+          ((rsplitN sep (s.length + 2) s).length - n) = n := by omega
+      rw [e]
+      exact ⟨rfl, by omega⟩
+    · next h =>
+      rw [hfull] at h
+      rw [rsplitN_of_length_le sep n (s.length + 2) s (by omega), ← hfull]
+  · unfold rsplitAll
+    simp only [List.length_reverse]
+    by_cases h : n < (rsplitN sep (s.length + 2) s).length
+    · have h' := h
+      rw [hfull] at h'
+      rw [rsplitN_take_drop sep n (s.length + 2) s h', ← hfull]
+      simp [List.length_take]; omega
+    · have h' := h
+      rw [hfull] at h'
+      rw [rsplitN_of_length_le sep n (s.length + 2) s (by omega), ← hfull]
+      omega
+
+/-- `maxsplits = -1` selects the left-to-right full split (as in the reference library). -/
+theorem C18_splitLimitR_minus_one (s sep : Str) (hsep : sep ≠ []) :
+    splitLimitR s sep (Num.ofInt (-1)) = .ok (split sep s) := by
+  have hsem : sep.isEmpty = false := by cases sep with
+    | nil => exact absurd rfl hsep
+    | cons => rfl
+  unfold splitLimitR; rw [hsem]; rfl
+
+/-- Self-overlapping separator: left and right scanning differ, both rebuild the string. -/
+example : splitLimit [0xE9, 0x61, 0x61, 0x61] [0x61, 0x61] (Num.ofNat 1) = .ok [[0xE9], [0x61]] ∧
+    splitLimitR [0xE9, 0x61, 0x61, 0x61] [0x61, 0x61] (Num.ofNat 1) = .ok [[0xE9, 0x61], []] :=
+  ⟨rfl, rfl⟩
+
+/-! ## strip -/
+
+/-- **C18 strip_spec.** `lstripChars` removes exactly the maximal prefix of listed
+    characters, `rstripChars` the maximal suffix, `stripChars` both; no fuel / panic
+    outcome is reachable. -/
+theorem C18_strip_spec (s cs : Str) :
+    lstripChars s cs = .ok (s.dropWhile (cs.contains ·)) ∧
+    rstripChars s cs = .ok (s.reverse.dropWhile (cs.contains ·)).reverse ∧
+    stripChars s cs =
+      .ok ((s.dropWhile (cs.contains ·)).reverse.dropWhile (cs.contains ·)).reverse := by
+  refine ⟨lstripLoop_eq cs _ s (by omega), rstripLoop_eq' cs _ s (by omega), ?_⟩
+  unfold stripChars
+  rw [lstripLoop_eq cs _ s (by omega)]
+  exact rstripLoop_eq' cs _ _ (by omega)
+
+/-- Maximality: what `lstripChars` removes consists of listed characters only, and what is
+    left does not start with one. -/
+theorem C18_lstrip_maximal (s cs : Str) :
+    ∃ pre r, lstripChars s cs = .ok r ∧ s = pre ++ r ∧ (∀ c ∈ pre, c ∈ cs) ∧
+      (∀ c, r.head? = some c → c ∉ cs) := by
+  refine ⟨s.takeWhile (cs.contains ·), s.dropWhile (cs.contains ·), (C18_strip_spec s cs).1,
+    List.takeWhile_append_dropWhile.symm, ?_, ?_⟩
+  · intro c hc
+    exact List.contains_iff_mem.mp (takeWhile_all s c hc)
+  · intro c hc hmem
+    have := List.head?_dropWhile_not (cs.contains ·) s
+    rw [hc] at this
+    simp only at this
+    rw [List.contains_iff_mem.mpr hmem] at this
+    cases this
+
+/-- Maximality for `rstripChars` (mirror image). -/
+theorem C18_rstrip_maximal (s cs : Str) :
+    ∃ r suf, rstripChars s cs = .ok r ∧ s = r ++ suf ∧ (∀ c ∈ suf, c ∈ cs) ∧
+      (∀ c, r.getLast? = some c → c ∉ cs) := by
+  refine ⟨(s.reverse.dropWhile (cs.contains ·)).reverse,
+    (s.reverse.takeWhile (cs.contains ·)).reverse, (C18_strip_spec s cs).2.1, ?_, ?_, ?_⟩
+  · rw [← List.reverse_append, List.takeWhile_append_dropWhile, List.reverse_reverse]
+  · intro c hc
+    exact List.contains_iff_mem.mp (takeWhile_all s.reverse c (List.mem_reverse.mp hc))
+  · intro c hc hmem
+    have := List.head?_dropWhile_not (cs.contains ·) s.reverse
+    rw [List.getLast?_reverse] at hc
+    rw [hc] at this
+    simp only at this
+    rw [List.contains_iff_mem.mpr hmem] at this
+    cases this
+
+example : stripChars [0xE9, 0x1F600, 0x61, 0xE9] [0xE9, 0x1F600] = .ok [0x61] := rfl
+
+/-! ## strReplace -/
+
+/-- **C18 strReplace_spec.** For a non-empty `from`, `std.strReplace(s, from, to)` is
+    `std.join(to, std.split(s, from))`; an empty `from` inserts `to` at every character
+    boundary (both ends included), as `str::replace` does. -/
+theorem C18_strReplace_spec (s frm to : Str) :
+    (frm ≠ [] → strReplace s frm to = join to (split frm s)) ∧
+    (frm = [] → strReplace s frm to = to ++ s.flatMap (fun c => c :: to)) := by
+  constructor
+  · exact replace_eq_join_split s frm to
+  · rintro rfl; rfl
+
+example : strReplace [0xE9, 0x61, 0x61, 0x61] [0x61, 0x61] [0x1F600] = [0xE9, 0x1F600, 0x61] := by
+  decide
+
+/-! ## codepoint / char, stringChars, reverse, map, flatMap, padding -/
+
+/-- **C18 char_codepoint_inverse.** `std.char` and `std.codepoint` are mutually inverse
+    between Unicode scalar values and one-character strings; other numbers / strings are
+    errors. -/
+theorem C18_char_codepoint_inverse :
+    (∀ c, isScalar c = true → char (Num.ofNat c) = .ok [c] ∧ codepoint [c] = .ok c) ∧
+    (∀ s c, codepoint s = .ok c → s = [c]) ∧
+    (∀ x s, char x = .ok s → ∃ c, s = [c] ∧ isScalar c = true ∧ codepoint s = .ok c) ∧
+    (∀ n, isScalar n = false → char (Num.ofNat n) = .error .badCodepoint) := by
+  refine ⟨?_, ?_, ?_, ?_⟩
+  · intro c hc
+    refine ⟨?_, rfl⟩
+    have hlt : c ≤ U32_MAX := by
+      unfold isScalar at hc
+      rw [U32_MAX_eq]
+      simp at hc; omega
+    unfold char Num.tryToU32 Num.trunc Num.ofNat
+    simp [hlt, hc]
+  · intro s c h
+    unfold codepoint at h
+    split at h
+    · cases h; rfl
+    · cases h
+  · intro x s h
+    unfold char at h
+    split at h
+    · next v hv =>
+      split at h
+      · next hs => cases h; exact ⟨v, rfl, hs, rfl⟩
+      · cases h
+    · cases h
+  · intro n hn
+    unfold char
+    split
+    · next v hv =>
+      unfold Num.tryToU32 Num.trunc Num.ofNat at hv
+      simp only [Bool.false_and, Bool.false_eq_true, if_false] at hv
+      split at hv
+      · cases hv; rw [if_neg (by simp [hn])]
+      · cases hv
+    · rfl
+
+example : char (Num.ofNat 0x1F600) = .ok [0x1F600] ∧ char (Num.ofNat 0xD800) = .error .badCodepoint ∧
+    codepoint [0x1F600] = .ok 0x1F600 ∧ codepoint [0x61, 0x301] = .error .notSingleChar :=
+  ⟨rfl, rfl, rfl, rfl⟩
+
+/-- **C18 stringChars_spec.** One one-character string per scalar value, in order. -/
+theorem C18_stringChars_spec (s : Str) :
+    stringChars s = s.map (fun c => [c]) ∧
+    (stringChars s).length = s.length ∧
+    (stringChars s).flatten = s ∧
+    ∀ i : Nat, (stringChars s)[i]? = s[i]?.map (fun c => [c]) := by
+  refine ⟨rfl, by simp [stringChars], ?_, fun i => by simp [stringChars]⟩
+  unfold stringChars
+  induction s with
+  | nil => rfl
+  | cons c r ih => simp [ih]
+
+/-- **C18 reverse.** `std.reverse` of a string lists its scalar values in reverse order
+    (`List.reverse` on code points); reversing the concatenation again gives the characters
+    of the original string. -/
+theorem C18_reverse_involutive (s : Str) :
+    reverse s = s.reverse.map (fun c => [c]) ∧
+    (reverse s).flatten = s.reverse ∧
+    reverse (reverse s).flatten = stringChars s := by
+  have hfl : ∀ t : Str, (t.map (fun c => [c])).flatten = t := by
+    intro t
+    induction t with
+    | nil => rfl
+    | cons c r ih => simp [ih]
+  refine ⟨rfl, hfl _, ?_⟩
+  unfold reverse stringChars
+  rw [hfl, List.reverse_reverse]
+
+/-- `std.map` / `std.flatMap` over a string apply the function once per scalar value. -/
+theorem C18_map_flatMap_spec {α : Type} (f : Str → α) (g : Str → Str) (s : Str) :
+    (mapStr f s).length = s.length ∧
+    (∀ i : Nat, (mapStr f s)[i]? = s[i]?.map (fun c => f [c])) ∧
+    flatMapStr g s = s.flatMap (fun c => g [c]) := by
+  refine ⟨by simp [mapStr], fun i => by simp [mapStr], ?_⟩
+  unfold flatMapStr
+  rw [List.flatMap_def]
+
+/-- **C18 padding_counts_chars.** A `std.format` field is padded with spaces to the field
+    width measured in characters: the result has `max(width, chars)` characters, and is the
+    rendered text preceded (or, left-aligned, followed) by spaces only. -/
+theorem C18_padding_counts_chars (s : Str) (fw : Nat) (left : Bool) :
+    (pad s fw left).length = max s.length fw ∧
+    pad s fw left =
+      (if left then s ++ List.replicate (fw - s.length) 32
+       else List.replicate (fw - s.length) 32 ++ s) := by
+  unfold pad
+  by_cases h : s.length < fw
+  · simp only [h, if_true]
+    cases left <;> simp <;> omega
+  · simp only [h, if_false]
+    have : fw - s.length = 0 := by omega
+    rw [this]
+    cases left <;> simp <;> omega
+
+example : pad [0xE9, 0xE9] 3 false = [32, 0xE9, 0xE9] := by decide
+
+/-! ## trim, ASCII case, startsWith / endsWith -/
+
+theorem C18_trim_case_affix_spec (s a b : Str) :
+    trim s = ((s.dropWhile isTrimChar).reverse.dropWhile isTrimChar).reverse ∧
+    (asciiUpper s).length = s.length ∧ (asciiLower s).length = s.length ∧
+    (∀ i : Nat, (asciiUpper s)[i]? = s[i]?.map (fun c => if 97 ≤ c ∧ c ≤ 122 then c - 32 else c)) ∧
+    (∀ i : Nat, (asciiLower s)[i]? = s[i]?.map (fun c => if 65 ≤ c ∧ c ≤ 90 then c + 32 else c)) ∧
+    (startsWith a b = true ↔ b <+: a) ∧
+    (endsWith a b = true ↔ b <:+ a) := by
+  refine ⟨rfl, by simp [asciiUpper], by simp [asciiLower], fun i => by simp [asciiUpper],
+    fun i => by simp [asciiLower], ?_, ?_⟩
+  · unfold startsWith; exact List.isPrefixOf_iff_prefix
+  · unfold endsWith
+    rw [List.isPrefixOf_iff_prefix, List.reverse_prefix]
 
 end Rsj.Str
 
 open Rsj.Str in
 #print axioms C18_length_is_codepoints
+open Rsj.Str in
+#print axioms C18_index_is_nth_codepoint
+open Rsj.Str in
+#print axioms C18_index_invalid
+open Rsj.Str in
+#print axioms C18_index_huge
+open Rsj.Str in
+#print axioms C18_slice_spec
+open Rsj.Str in
+#print axioms C18_slice_errors
+open Rsj.Str in
+#print axioms C18_substr_spec
+open Rsj.Str in
+#print axioms C18_substr_errors
+open Rsj.Str in
+#print axioms C18_negative_zero
+open Rsj.Str in
+#print axioms C18_findSubstr_spec
+open Rsj.Str in
+#print axioms C18_join_spec
+open Rsj.Str in
+#print axioms C18_join_split
+open Rsj.Str in
+#print axioms C18_split_leftmost
+open Rsj.Str in
+#print axioms C18_splitLimit_spec
+open Rsj.Str in
+#print axioms C18_splitLimit_args
+open Rsj.Str in
+#print axioms C18_rsplit_rightmost
+open Rsj.Str in
+#print axioms C18_splitLimitR_spec
+open Rsj.Str in
+#print axioms C18_splitLimitR_minus_one
+open Rsj.Str in
+#print axioms C18_strip_spec
+open Rsj.Str in
+#print axioms C18_lstrip_maximal
+open Rsj.Str in
+#print axioms C18_rstrip_maximal
+open Rsj.Str in
+#print axioms C18_strReplace_spec
+open Rsj.Str in
+#print axioms C18_char_codepoint_inverse
+open Rsj.Str in
+#print axioms C18_stringChars_spec
+open Rsj.Str in
+#print axioms C18_reverse_involutive
+open Rsj.Str in
+#print axioms C18_map_flatMap_spec
+open Rsj.Str in
+#print axioms C18_padding_counts_chars
+open Rsj.Str in
+#print axioms C18_trim_case_affix_spec
